@@ -189,10 +189,14 @@ def unfrs(vs):
 def make_case(ctx, idx):
     rng = ctx.rng
     stream = rng.choice(["polygon", "polygon", "polygon", "polygon", "polygon", "fillup", "fillup", "polycombo", "polycombo", "mesh", "point",
-                         "composed", "composed", "composed", "composed", "peval", "peval", "peval"])
+                         "composed", "composed", "composed", "composed", "peval", "peval", "peval", "flagged", "flagged", "flagged", "options", "options"])
     seed = rng.randint(0, 2 ** 31 - 1)
     if stream == "peval":
         return make_peval_case(rng, idx, seed)
+    if stream == "flagged":
+        return make_flagged_case(rng, idx, seed)
+    if stream == "options":
+        return make_options_case(rng, idx, seed)
     if stream in ("polygon", "fillup"):
         fam, outer, hole = gen_polygon(rng)
         if stream == "fillup":
@@ -454,6 +458,240 @@ def eval_peval(rep, item, rl):
 
 
 # ---------------------------------------------------------------------------------------------
+# constructor options: CutDomain(contained=True), UnionDomain(disjoint=True); Rotate.from_angles,
+# ExponentialIntervalSampler, set_volume + density
+
+def make_flagged_case(rng, idx, seed):
+    from geomgen import c as C, PF, dy
+    cst = lambda pt: PF([C(pt[0]), C(pt[1])])
+    kind = rng.choice(["cut-contained", "cut-contained", "cut-contained", "union-disjoint"])
+    if kind == "cut-contained":
+        # B = sub-parallelogram at A's origin corner: inside A, sharing pieces of two edges of A (not boundary of A - B)
+        axis = rng.random() < 0.6
+        if axis:
+            o = [dy(rng, -2, 2), dy(rng, -2, 2)]
+            w, h = rng.choice([1, -1]) * dy(rng, 0.5, 3), rng.choice([1, -1]) * dy(rng, 0.5, 3)
+            d1, d2 = ([w, Fr(0)], [Fr(0), h]) if rng.random() < 0.5 else ([Fr(0), h], [w, Fr(0)])
+        else:
+            while True:
+                o = [dy(rng, -2, 2), dy(rng, -2, 2)]
+                d1, d2 = [dy(rng, -3, 3), dy(rng, -3, 3)], [dy(rng, -3, 3), dy(rng, -3, 3)]
+                if abs(d1[0] * d2[1] - d1[1] * d2[0]) >= 1 and 0 not in d1 + d2:
+                    break
+        s_, t_ = rng.choice([(Fr(1, 2), Fr(1, 2)), (Fr(1), Fr(1, 2)), (Fr(1, 2), Fr(1)), (Fr(1, 4), Fr(3, 4)), (Fr(3, 4), Fr(1))])
+        a = Node("par", "x", [cst(o), cst([o[0] + d1[0], o[1] + d1[1]]), cst([o[0] + d2[0], o[1] + d2[1]])])
+        b = Node("par", "x", [cst(o), cst([o[0] + s_ * d1[0], o[1] + s_ * d1[1]]), cst([o[0] + t_ * d2[0], o[1] + t_ * d2[1]])])
+        inner = Node("cut", None, [], [a, b], flags={"contained": True} if rng.random() < 0.85 else None)
+        P = lambda a_, b_: [str(o[0] + a_ * d1[0] + b_ * d2[0]), str(o[1] + a_ * d1[1] + b_ * d2[1])]
+        shared = [[P(0, 0), P(s_, 0)], [P(0, 0), P(0, t_)]]
+        if s_ == 1:
+            shared.append([P(1, 0), P(1, t_)])        # B reaches A's far edge in direction d1
+        if t_ == 1:
+            shared.append([P(0, 1), P(s_, 1)])
+    else:
+        axis = True
+        o = [dy(rng, -2, 0), dy(rng, -2, 2)]
+        a = Node("par", "x", [cst(o), cst([o[0] + 1, o[1]]), cst([o[0], o[1] + dy(rng, 0.5, 2)])])
+        o2 = [o[0] + dy(rng, 1.5, 3), o[1] + dy(rng, -1, 1)]
+        b = Node("circle", "x", [cst(o2), PF([C(Fr(1, 2))])]) if rng.random() < 0.5 else \
+            Node("tri", "x", [cst(o2), cst([o2[0] + 1, o2[1]]), cst([o2[0], o2[1] + 1])])
+        inner = Node("union", None, [], [a, b], flags={"disjoint": True})
+        shared = []
+    part = rng.choice(["boundary", "boundary", "boundary", "interior"])
+    api = rng.choice(["dom.random.d", "dom.grid.d", "smp.uniform.d", "smp.grid.d", "dom.random", "dom.grid", "smp.uniform"])
+    return dict(id=idx, stream="flagged", kind=kind, axis_parallel=axis, dom=inner.describe(), shared=shared, part=part, api=api,
+                n=rng.choice([2, 5, 20, 40]), d=rng.choice([3.7, 10.0, 40.0]), seed=seed)
+
+
+RING16 = [(Fr(round(1024 * math.cos(2 * math.pi * i / 16)), 1024), Fr(round(1024 * math.sin(2 * math.pi * i / 16)), 1024)) for i in range(16)]
+RING128 = [(Fr(round(4096 * math.cos(2 * math.pi * i / 128)), 4096), Fr(round(4096 * math.sin(2 * math.pi * i / 128)), 4096)) for i in range(128)]
+
+
+def run_flagged(cs, rep, lines, pending, inp):
+    tp = common.use_repo()
+    node = geomgen.from_json(cs["dom"])
+    try:
+        D = node.to_tp(tp)
+        if cs["part"] == "boundary":
+            D = D.boundary
+    except Exception as e:  # noqa
+        rep.fail(f"building {cs['kind']} failed: {type(e).__name__}: {str(e)[:160]}", inp)
+        return
+    api, n, d = cs["api"], cs["n"], cs["d"]
+    S = tp.samplers
+    f = {"dom.random.d": lambda: D.sample_random_uniform(d=d), "dom.grid.d": lambda: D.sample_grid(d=d),
+         "smp.uniform.d": lambda: S.RandomUniformSampler(D, density=d).sample_points(), "smp.grid.d": lambda: S.GridSampler(D, density=d).sample_points(),
+         "dom.random": lambda: D.sample_random_uniform(n=n), "dom.grid": lambda: D.sample_grid(n=n),
+         "smp.uniform": lambda: S.RandomUniformSampler(D, n_points=n).sample_points()}[api]
+    res, err = call(f)
+    flag = "contained=True" if (node.flags or {}).get("contained") else ("disjoint=True" if (node.flags or {}).get("disjoint") else "default flag")
+    what = f"{'CutDomain' if node.kind == 'cut' else 'UnionDomain'}(A, B, {flag}){'.boundary' if cs['part'] == 'boundary' else ''} {api}(n={n}, d={d})"
+    rep.count(f"flagged:{cs['kind']}:{flag}:{cs['part']}:{'axis' if cs['axis_parallel'] else 'slanted'}")
+    rep.count("flagged:api:" + api)
+    if err:
+        rep.fail(f"{what} " + ("did not return within %ds" % TIMEOUT if err == "timeout" else "failed: " + err), inp)
+        return
+    t = res.as_tensor
+    if not api.endswith(".d") and t.shape[0] != n:
+        rep.fail(f"{what} returned {t.shape[0]} points", inp)
+        return
+    dt = node.tokens()
+    scale = float(max(abs(Fr(x)) for seg in (cs["shared"] or [[["1", "1"]]]) for pt_ in seg for x in pt_) or 1)
+    pts_all = t.tolist()
+    # frontier (ring) test: all points close to a shared edge piece (at most 16) and 6 others
+    near = [r for r, p in enumerate(pts_all) if all(math.isfinite(x) for x in p) and near_shared(cs, p) < 1e-3][:10]
+    others = [r for r in range(len(pts_all)) if r not in near]
+    ring_rows = set(near + others[:: max(1, len(others) // 4)][:4])
+    for r, p in enumerate(pts_all):
+        if not all(math.isfinite(x) for x in p):
+            rep.fail(f"{what} returned a non-finite point", inp)
+            return
+        q = [Fr(x) for x in p]
+        item = dict(kind="flag", what=what, inp=inp, p=p, q=q, dt=dt, bdry=(cs["part"] == "boundary" and r in ring_rows), cs=cs, stage=1, replies=[],
+                    is_bdry=cs["part"] == "boundary")
+        item["nlines"] = 1 + (16 if item["bdry"] else 0)
+        lines.append("sd " + dt + " " + env_tokens({"x": q}) + " " + env_tokens({}))
+        if item["bdry"]:
+            for rad in (Fr(1, 200),):
+                for dx, dy_ in RING16:
+                    lines.append("sd " + dt + " " + env_tokens({"x": [q[0] + rad * dx, q[1] + rad * dy_]}) + " " + env_tokens({}))
+        pending.append(item)
+        rep.count("flagged:rows-checked")
+
+
+def near_shared(cs, p):
+    """distance of p to the shared edge pieces (pieces of A's boundary that are NOT boundary of A - B)"""
+    return min([seg_dist(p, [Fr(x) for x in a], [Fr(x) for x in b]) for a, b in cs["shared"]] or [1e9])
+
+
+def eval_flagged(rep, item, replies, escalate):
+    what, inp, p, cs = item["what"], item["inp"], item["p"], item["cs"]
+    if any(r == "none" or r.startswith("bad-op") for r in replies):
+        rep.disagree("drivers/C01.lean sd cannot evaluate a flagged domain", inp, p, replies[0])
+        return
+    if item["stage"] == 1:
+        m = Fr(replies[0])
+        if m < -Fr(1, 5000) or (item["is_bdry"] and m > Fr(1, 5000)):
+            rep.fail(f"{what} returned the point {p}: " + ("outside the denoted set" if m < 0 else "in the interior, not on the boundary")
+                     + f" (exact signed margin {float(m):.4g})", inp, detail=dict(point=p))
+            return
+        if not item["bdry"]:
+            return
+        ring = [Fr(x) for x in replies[1:]]
+    else:
+        ring = [Fr(x) for x in replies]
+    has_in, has_out = any(x > 0 for x in ring), any(x < 0 for x in ring)
+    if has_in and has_out:
+        rep.count("flagged:frontier-confirmed" + ("(escalated)" if item["stage"] == 2 else ""))
+        return
+    if item["stage"] == 1:
+        # 16 directions at two radii saw only one side: look much closer before concluding anything (sharp corners)
+        item["stage"] = 2
+        escalate.append(item)
+        return
+    side = "the complement" if not has_in else "the set"
+    slanted = not cs["axis_parallel"]
+    finding = None
+    if slanted and cs["kind"] == "cut-contained" and not has_in and near_shared(cs, p) < 1e-5 * 10:
+        finding = "cut_shared_boundary_piece"
+    rep.fail(f"{what} returned the point {p}: it has margin ~0 but every one of 256 points around it (128 directions, radii 1e-4 and 1e-2; the corners of these shapes are wider than 3 degrees) lies in {side} — "
+             f"the point is on an edge of an operand, not on the boundary of the set (distance to the shared edge pieces of A and B: {near_shared(cs, p):.3g})",
+             inp, detail=dict(point=p), finding=finding)
+
+
+def make_options_case(rng, idx, seed):
+    from geomgen import c as C, PF, dy
+    opt = rng.choice(["from_angles", "from_angles", "exp-interval", "exp-interval", "set_volume"])
+    k = rng.choice([1, 2, 3])
+    trows = [str(Fr(rng.randint(0, 16), 16)) for _ in range(k)]
+    if opt == "from_angles":
+        g = Gen(rng, params=["t"], p_dep=0.5)
+        g.allow_rotate = g.allow_translate = False
+        inner = g.prim2("x")
+        return dict(id=idx, stream="options", opt=opt, dom=inner.describe(), quarter=rng.choice([0, 1, 2, 3]), dep=rng.random() < 0.5,
+                    ctr=[str(dy(rng, -1, 1)), str(dy(rng, -1, 1))], trows=trows, part=rng.choice(["interior", "boundary"]),
+                    api=rng.choice(["dom.random", "dom.grid", "smp.uniform"]), n=rng.choice([1, 3, 10]), seed=seed)
+    if opt == "exp-interval":
+        g = Gen(rng, params=["t"], p_dep=0.7)
+        return dict(id=idx, stream="options", opt=opt, dom=g.prim1("y").describe(), exponent=rng.choice([0.5, 0.25, 2.0, 3.0]), trows=trows,
+                    n=rng.choice([1, 2, 5, 20]), seed=seed)
+    g = Gen(rng, params=["t"], p_dep=0.5)
+    g.allow_rotate = g.allow_translate = False
+    return dict(id=idx, stream="options", opt=opt, dom=g.prim(rng.choice(["x", "y", "z"])).describe(), volume=rng.choice([0.5, 2.0, 7.0]),
+                trows=trows[:1], d=rng.choice([1.0, 4.0]), api=rng.choice(["dom.random.d", "dom.grid.d", "smp.uniform.d"]), seed=seed)
+
+
+def run_options(cs, rep, lines, pending, inp):
+    tp = common.use_repo()
+    import torch
+    from torchphysics.problem.domains.domainoperations.rotate import Rotate
+    node = geomgen.from_json(cs["dom"])
+    opt = cs["opt"]
+    prows = [{"t": [t]} for t in cs["trows"]]
+    params = mk_params(tp, ["t"], prows)
+    k = len(prows)
+    rep.count("options:" + opt)
+    judge = node
+    try:
+        if opt == "from_angles":
+            # quarter turns (exact cos / sin up to float32 rounding of pi/2: 4e-8); optionally the angle depends on t as q*pi/2 + 0*t
+            ang = cs["quarter"] * math.pi / 2
+            angle = (lambda t: ang + 0.0 * t) if cs["dep"] else ang
+            ctr = [float(Fr(a)) for a in cs["ctr"]]
+            D = Rotate.from_angles(node.to_tp(tp), angle, rotate_around=ctr)
+            co, si = [(1, 0), (0, 1), (-1, 0), (0, -1)][cs["quarter"]]
+            judge = Node("rotate", "x", [geomgen.PF([geomgen.c(co), geomgen.c(-si), geomgen.c(si), geomgen.c(co)]),
+                                         geomgen.PF([geomgen.c(Fr(cs["ctr"][0])), geomgen.c(Fr(cs["ctr"][1]))])], [node])
+            bdry = cs["part"] == "boundary"
+            if bdry:
+                D = D.boundary
+            api, n = cs["api"], cs["n"]
+            if api == "dom.grid" and k > 1:
+                api = "dom.random"
+            f = {"dom.random": lambda: D.sample_random_uniform(n=n, params=params), "dom.grid": lambda: D.sample_grid(n=n, params=params),
+                 "smp.uniform": lambda: tp.samplers.RandomUniformSampler(D, n_points=n).sample_points(params)}[api]
+            what = f"Rotate.from_angles({node.kind}[{','.join(node.free_vars())}], {cs['quarter']}*pi/2{' (callable)' if cs['dep'] else ''}){'.boundary' if bdry else ''} {api}(n={n}) with {k} rows"
+            per_row = n
+        elif opt == "exp-interval":
+            D = node.to_tp(tp)
+            n = cs["n"]
+            f = lambda: tp.samplers.ExponentialIntervalSampler(D, n, cs["exponent"]).sample_points(params)
+            what = f"ExponentialIntervalSampler(interval[{','.join(node.free_vars())}], n={n}, exponent={cs['exponent']}) with {k} rows"
+            bdry, api, per_row = False, "smp.exp", n
+        else:
+            D = node.to_tp(tp)
+            D.set_volume(cs["volume"])
+            d, api = cs["d"], cs["api"]
+            f = {"dom.random.d": lambda: D.sample_random_uniform(d=d, params=params), "dom.grid.d": lambda: D.sample_grid(d=d, params=params),
+                 "smp.uniform.d": lambda: tp.samplers.RandomUniformSampler(D, density=d).sample_points(params)}[api]
+            what = f"{node.kind}.set_volume({cs['volume']}) then {api}(d={d}) with {k} row"
+            bdry, per_row = False, None
+    except Exception as e:  # noqa
+        rep.fail(f"option {opt}: construction failed: {type(e).__name__}: {str(e)[:160]}", inp)
+        return
+    res, err = call(f)
+    if err:
+        rep.fail(f"{what} " + ("did not return within %ds" % TIMEOUT if err == "timeout" else "failed: " + err), inp)
+        return
+    co_ = res.coordinates
+    if per_row is not None and len(res) != per_row * k:
+        rep.fail(f"{what} returned {len(res)} rows", inp)
+        return
+    var = node.vars()[0]
+    dt = judge.tokens()
+    for r in range(len(res)):
+        pt = [float(x) for x in co_[var][r].tolist()]
+        if not all(math.isfinite(x) for x in pt):
+            rep.fail(f"{what} returned a non-finite point", inp)
+            return
+        tval = Fr(float(co_["t"][r, 0])) if "t" in co_ else (Fr(cs["trows"][r // per_row]) if per_row else Fr(cs["trows"][0]))
+        env = {"t": [tval]}
+        lines.append("sd " + dt + " " + env_tokens({var: [Fr(x) for x in pt]}) + " " + env_tokens(env))
+        pending.append(("peval", what, inp, r, pt, env, bdry))
+        rep.count("options:rows-checked")
+
+
+# ---------------------------------------------------------------------------------------------
 # implementation runs
 
 def mk_params(tp, names, prows):
@@ -512,6 +750,7 @@ def run_case(cs, rep, lines, pending):
         api, n, d = cs["api"], cs["n"], cs["d"]
         rep.count(f"polygon:{cs['family']}:{cs['part']}")
         rep.count("polygon:api:" + api)
+        xcheck = 0
         for r in range(cs["reps"]):
             if api == "dom.random":
                 f = lambda: D.sample_random_uniform(n=n)
@@ -540,14 +779,16 @@ def run_case(cs, rep, lines, pending):
                     rep.fail(f"{what} returned a non-finite point {p}", inp)
                     return
                 m = poly_margin(outer, hole, p)
-                # the Lean model of the even-odd denotation (Model/GeomPoly.lean) must give the same verdict
-                q = (Fr(p[0]), Fr(p[1]))
-                io = poly_contains(outer, q); ih = poly_contains(hole, q) if hole else False
-                want = "edge" if (io is None or ih is None) else ("1" if (io and not ih) else "0")
-                lines.append("poly " + common.lst(outer, lambda v: common.q(v[0]) + " " + common.q(v[1])) + " "
-                             + common.lst(hole or [], lambda v: common.q(v[0]) + " " + common.q(v[1])) + " " + common.q(q[0]) + " " + common.q(q[1]))
-                pending.append(lambda rl, want=want, p=p: (rep.count("polygon:lean-model-agrees") if rl == want else
-                                                            rep.disagree("even-odd polygon oracle: harness and Lean model (Model/GeomPoly.lean) differ", inp, want, rl)))
+                if xcheck < 30:
+                    xcheck += 1
+                    # the Lean model of the even-odd denotation (Model/GeomPoly.lean) must give the same verdict
+                    q = (Fr(p[0]), Fr(p[1]))
+                    io = poly_contains(outer, q); ih = poly_contains(hole, q) if hole else False
+                    want = "edge" if (io is None or ih is None) else ("1" if (io and not ih) else "0")
+                    lines.append("poly " + common.lst(outer, lambda v: common.q(v[0]) + " " + common.q(v[1])) + " "
+                                 + common.lst(hole or [], lambda v: common.q(v[0]) + " " + common.q(v[1])) + " " + common.q(q[0]) + " " + common.q(q[1]))
+                    pending.append(lambda rl, want=want, p=p: (rep.count("polygon:lean-model-agrees") if rl == want else
+                                                                rep.disagree("even-odd polygon oracle: harness and Lean model (Model/GeomPoly.lean) differ", inp, want, rl)))
                 if m < -EPS or (cs["part"] == "boundary" and m > EPS):
                     rep.fail(f"{what} returned the point {p}: " + ("outside the polygon" if m < 0 else "in the interior, not on the boundary")
                              + f" (even-odd rule in exact arithmetic; distance to the nearest edge {abs(m):.4g} relative to the size)", inp,
@@ -629,6 +870,10 @@ def run_case(cs, rep, lines, pending):
         return
     if st == "peval":
         return run_peval(cs, rep, lines, pending, inp)
+    if st == "flagged":
+        return run_flagged(cs, rep, lines, pending, inp)
+    if st == "options":
+        return run_options(cs, rep, lines, pending, inp)
     if st == "polycombo":
         return run_polycombo(cs, rep, lines, pending, inp)
     return run_composed(cs, rep, lines, pending, inp)
@@ -863,8 +1108,17 @@ def run(ctx, rep, cases=None):
     replies = common.run_driver("C01", lines) if lines else []
     pos = 0
     failed_cases = set()
+    escalate = []
     for item in pending:
-        if callable(item):
+        if isinstance(item, dict):
+            cid = item["inp"]["id"]
+            nf = len(rep.failures) + len(rep.known_hits)
+            if cid not in failed_cases:
+                eval_flagged(rep, item, replies[pos:pos + item["nlines"]], escalate)
+                if len(rep.failures) + len(rep.known_hits) > nf:
+                    failed_cases.add(cid)
+            pos += item["nlines"]
+        elif callable(item):
             rl = replies[pos]; pos += 1
             item(rl)
         elif item[0] == "peval":
@@ -881,3 +1135,21 @@ def run(ctx, rep, cases=None):
                 if len(rep.failures) > nf:
                     failed_cases.add(cid)
             pos += cnt
+    # second stage of the frontier test for boundary samples of flagged domains: 128 directions, two radii
+    if escalate:
+        lines2 = []
+        for item in escalate:
+            q, dt = item["q"], item["dt"]
+            for rad in (Fr(1, 10000), Fr(1, 100)):
+                for dx, dy_ in RING128:
+                    lines2.append("sd " + dt + " " + env_tokens({"x": [q[0] + rad * dx, q[1] + rad * dy_]}) + " " + env_tokens({}))
+        rep2 = common.run_driver("C01", lines2)
+        rep.count("flagged:escalated-points", len(escalate))
+        for i, item in enumerate(escalate):
+            cid = item["inp"]["id"]
+            if cid in failed_cases:
+                continue
+            nf = len(rep.failures) + len(rep.known_hits)
+            eval_flagged(rep, item, rep2[i * 256:(i + 1) * 256], escalate)
+            if len(rep.failures) + len(rep.known_hits) > nf:
+                failed_cases.add(cid)
